@@ -1,1 +1,5 @@
 import ChipFiring.Properties.C01
+import ChipFiring.Properties.C05
+import ChipFiring.Properties.C06
+import ChipFiring.Properties.C12
+import ChipFiring.Properties.C13
